@@ -1,8 +1,8 @@
 (* Executable model of pgradd/RINGParser/Reader.py + MolQueryRead.py: parse
    tree -> fragment (Graph/Mol.v), with the library's error classes.  The
    model follows the code after the fixes recorded in known_findings.json
-   (lowercase symbols are aromatic query atoms; duplicate labels, self-bonds,
-   duplicate bonds and unknown groups are reader errors).  No proofs here. *)
+   (lowercase symbols are aromatic query atoms; self-bonds, duplicate bonds
+   and unknown groups are reader errors).  No proofs here. *)
 From Coq Require Import List NArith ZArith Arith Bool String Ascii.
 From PG Require Import Common.Strs Ring.Peg Graph.Mol.
 Import ListNotations.
@@ -280,8 +280,13 @@ Definition read_bonded (st : rst) (t : ptree) : rres rst :=
   | at_ :: lb :: bt :: tgt :: rest =>
       rbind (read_atomtype at_) (fun qa =>
       rbind (label_of lb) (fun l =>
-        match index_of l (names st) with
-        | Some _ => RErr' EReader                       (* label already declared *)
+        (* the duplicate-label check of the code compares the token name
+           'AtomLabel' with the declared labels: duplicates are accepted
+           (shipped schemes rely on that), and a label literally named
+           AtomLabel makes the check fire and fail with TypeError while
+           building its message (known finding) *)
+        match (if existsb (fun n => is n "AtomLabel") (names st) then Some tt else None) with
+        | Some _ => RErr' EInternal
         | None =>
             let '(st1, idx) := add_atom st (fst qa) (snd qa) l in
             rbind (label_of bt) (fun b =>
